@@ -172,6 +172,10 @@ pub fn fan_out(world: &str, tier: &str, seed: u64, runs: u64, jobs: usize, extra
         for e in extra {
             cmd.arg(e);
         }
+        if j % 2 == 1 && !extra.iter().any(|e| e == "digests") {
+            // every second worker process runs the library with debug-level logging on (IWE_DEBUG=1 in production)
+            cmd.arg("debuglog");
+        }
         cmd.stdin(Stdio::null()).stdout(Stdio::null()).stderr(Stdio::inherit());
         let child = cmd.spawn().map_err(|e| format!("spawn worker: {}", e))?;
         children.push((child, out));
